@@ -48,6 +48,7 @@ type opT struct {
 	Keep []string `json:"keep"`
 	Out  string   `json:"out"`
 	Exp  *expT    `json:"exp"`
+	To   string   `json:"to,omitempty"`     // Cloud: "down" | "up"
 	NB   bool     `json:"nb,omitempty"`     // concurrent mode: this Login does not wait at the rendezvous
 	Jit  int      `json:"jitter,omitempty"` // concurrent mode: random busy-wait of up to Jit ns after the rendezvous
 }
@@ -128,10 +129,35 @@ func binding(p map[string]any, e *expT) bool {
 }
 
 type runner struct {
-	w        *srvkit.World
-	segStart time.Time
-	timed    bool
-	overrun  bool
+	w         *srvkit.World
+	segStart  time.Time
+	timed     bool
+	overrun   bool
+	cloudDown bool
+	kick      *pendingKick // a KickOldConnection whose I/O part is held back (KickBegin .. KickEnd)
+}
+
+// pendingKick: the goroutine running SessionManager.KickOldControlConnection is parked in the write
+// of the kick command to the old peer's transport (a peer that does not drain its socket).
+type pendingKick struct {
+	conn    string // name of the connection whose transport holds the kick back ("" = nothing pending)
+	release chan struct{}
+	done    chan struct{}
+}
+
+func (r *runner) finishKick() bool {
+	k := r.kick
+	if k == nil {
+		return true
+	}
+	r.kick = nil
+	close(k.release)
+	select {
+	case <-k.done:
+		return true
+	case <-time.After(10 * time.Second):
+		return false
+	}
 }
 
 func (r *runner) seg() {
@@ -232,6 +258,9 @@ func (r *runner) step(o opT) (fw.Event, string) {
 		if s := needOpen(); s != "" {
 			return nil, s
 		}
+		if r.cloudDown {
+			ev["shape"] = "cloud-down"
+		}
 		c.Disconnect()
 		ev["closed"] = o.C
 	case "Kick":
@@ -249,6 +278,67 @@ func (r *runner) step(o opT) (fw.Event, string) {
 		}
 		ev["id"] = o.ID
 		w.S.Kick(w.ClientID(o.ID), nid)
+	case "KickBegin":
+		nid := ""
+		if o.New != "none" {
+			if nc := w.Conn(o.New); nc != nil {
+				nid = nc.ID
+			} else {
+				nid = "not-accepted-" + o.New
+			}
+			ev["shape"] = "new=conn"
+		} else {
+			ev["shape"] = "new=none"
+		}
+		ev["id"] = o.ID
+		// whichever transport the kick command is written to holds it back (one-shot hooks on all
+		// open transports; nothing else writes while only the kick goroutine runs)
+		k := &pendingKick{release: make(chan struct{}), done: make(chan struct{})}
+		parked := make(chan string, 1)
+		var claimed atomic.Bool
+		for _, n := range w.ConnNames {
+			if tc := w.Conn(n); tc != nil && !tc.Closed() {
+				name := n
+				tc.T.BeforeNextWrite(func() {
+					if claimed.CompareAndSwap(false, true) {
+						parked <- name
+						<-k.release
+					}
+				})
+			}
+		}
+		id := w.ClientID(o.ID)
+		go func() {
+			defer close(k.done)
+			defer func() { _ = recover() }() // a panic of the code under test must not kill the check; the judge sees the state
+			w.S.Kick(id, nid)
+		}()
+		select {
+		case k.conn = <-parked:
+			r.kick = k
+		case <-k.done:
+			claimed.Store(true) // nothing to deliver: the kick is complete
+		case <-time.After(10 * time.Second):
+			return nil, "kick neither reached a transport nor returned"
+		}
+		for _, n := range w.ConnNames {
+			if tc := w.Conn(n); tc != nil && n != k.conn {
+				tc.T.BeforeNextWrite(nil)
+			}
+		}
+	case "KickEnd":
+		if r.kick == nil {
+			return nil, "no kick outstanding (model and server disagree)"
+		}
+		ev["kicked"] = r.kick.conn
+		if !r.finishKick() {
+			return nil, "the held-back kick did not return after its transport was released"
+		}
+	case "Cloud":
+		// outage of the cloud-control runtime-state calls (fault point of close / sweep / heartbeat)
+		r.cloudDown = o.To == "down"
+		w.S.SetCloudOutage(r.cloudDown)
+		ev["shape"] = o.To
 	case "Heartbeat":
 		if s := needOpen(); s != "" {
 			return nil, s
@@ -325,6 +415,9 @@ func (r *runner) step(o opT) (fw.Event, string) {
 	default:
 		return nil, "unknown operation " + o.Op
 	}
+	if r.kick != nil {
+		ev["kicking"] = r.kick.conn // the eviction of this connection is in progress, not completed
+	}
 	if o.Op == "Tick" {
 		// The heartbeat-timeout sweep evicts connections whose peer is silent; it must finish the
 		// eviction itself (cleanupStaleConnections calls CloseConnection for every stale entry):
@@ -361,6 +454,14 @@ func driveSeq(ops []opT) *fw.Trace {
 	}
 	defer s.Close()
 	r := &runner{w: srvkit.NewWorld(s, keys(ops[0].Exp.Auth), keys(ops[0].Exp.Idx)), timed: timed, segStart: time.Now()}
+	defer r.finishKick()
+	if len(ops[0].Exp.Sess) > 0 && ops[0].Op != "Accept" { // configurations with PreAccept = TRUE
+		for _, n := range r.w.ConnNames {
+			if _, err := r.w.Accept(n); err != nil {
+				return &fw.Trace{Status: fw.DriverError, Note: err.Error()}
+			}
+		}
+	}
 	t := &fw.Trace{Status: fw.Realised}
 	mism := 0
 	for i, o := range ops {
@@ -733,6 +834,8 @@ func main() {
 						Consts: map[string]string{"FIXES": fixes, "LEVEL": "8", "EMIT": `"no"`, "INV": strict}},
 					{Name: "registry ops at the control-connection cap depth 8", Module: "Session", Cfg: "Session_cap.cfg",
 						Consts: map[string]string{"FIXES": fixes, "LEVEL": "8", "EMIT": `"no"`}},
+					{Name: "kick in two parts (locked section, then I/O), complete", Module: "Session", Cfg: "Session_kick.cfg",
+						Consts: map[string]string{"FIXES": fixes, "FAULTS": "{}", "CLIENT": "Client2", "VIEW": "VIEW view", "LEVEL": "99", "EMIT": `"no"`}},
 					{Name: "interleaved critical sections depth 10 (strict invariants)", Module: "Session", Cfg: "Session_split.cfg",
 						Consts: map[string]string{"FIXES": fixes, "FAULTS": "{}", "LEVEL": "10", "INV": strict}},
 				})
@@ -742,6 +845,8 @@ func main() {
 					Consts: map[string]string{"FIXES": fixes, "LEVEL": "10", "EMIT": `"no"`, "INV": strict}},
 				{Name: "registry ops at the control-connection cap, complete", Module: "Session", Cfg: "Session_cap.cfg",
 					Consts: map[string]string{"FIXES": fixes, "LEVEL": "99", "EMIT": `"no"`}},
+				{Name: "kick in two parts (locked section, then I/O), complete", Module: "Session", Cfg: "Session_kick.cfg",
+					Consts: map[string]string{"FIXES": fixes, "FAULTS": "{}", "CLIENT": "Client2", "VIEW": "VIEW view", "LEVEL": "99", "EMIT": `"no"`}},
 				{Name: "interleaved critical sections, complete (strict invariants)", Module: "Session", Cfg: "Session_split.cfg",
 					Consts: map[string]string{"FIXES": fixes, "FAULTS": "{}", "LEVEL": "99", "INV": strict}},
 				{Name: "tree before patches C07-1/C07-2, depth 8 (invariants masked by the named deviations)", Module: "Session", Cfg: "Session_c07.cfg",
@@ -751,24 +856,27 @@ func main() {
 			})
 		},
 		GenJobs: func(env *fw.Env) []fw.TLCJob {
-			lv, lvCap, cfg, sims, depth := "6", "6", "Session_c07.cfg", "num=300", 14
+			lv, lvCap, lvKick, cfg, sims, depth := "6", "6", "5", "Session_c07.cfg", "num=300", 14
 			if env.Tier == "thorough" {
-				lv, lvCap, cfg, sims, depth = "7", "8", "Session_c07t.cfg", "num=3000", 20
+				lv, lvCap, lvKick, cfg, sims, depth = "7", "8", "6", "Session_c07t.cfg", "num=3000", 20
 			}
 			return withTimeout(40*time.Minute, []fw.TLCJob{
 				{Name: "gen:transitions", Module: "Session", Cfg: cfg, Workers: 8,
 					Consts: map[string]string{"FIXES": fixes, "LEVEL": lv, "EMIT": `"all"`, "INV": "C07Inv C07One"}},
 				{Name: "gen:cap", Module: "Session", Cfg: "Session_cap.cfg", Workers: 8,
 					Consts: map[string]string{"FIXES": fixes, "LEVEL": lvCap, "EMIT": `"all"`}},
+				// all operation histories to the depth bound (no VIEW: path-dependent faults), one client
+				{Name: "gen:kick", Module: "Session", Cfg: "Session_kick.cfg", Workers: 8,
+					Consts: map[string]string{"FIXES": fixes, "FAULTS": "{}", "CLIENT": "Client1", "VIEW": "", "LEVEL": lvKick, "EMIT": `"last"`}},
 				{Name: "gen:simulate", Module: "Session", Cfg: cfg, Workers: 4, Simulate: sims, Depth: depth + 1, Seed: env.Seed,
 					Consts: map[string]string{"FIXES": fixes, "LEVEL": fmt.Sprint(depth), "EMIT": `"last"`, "INV": "C07Inv C07One"}},
 			})
 		},
-		MaxBeh: func(env *fw.Env) int {
+		MaxBehSrc: func(env *fw.Env, src string) int {
 			if env.Tier == "thorough" {
-				return 60000
+				return map[string]int{"gen:transitions": 30000, "gen:cap": 12000, "gen:kick": 15000, "gen:simulate": 8000}[src]
 			}
-			return 4500
+			return map[string]int{"gen:transitions": 2600, "gen:cap": 900, "gen:kick": 2500, "gen:simulate": 600}[src]
 		},
 		ExtraBeh:    parBehaviours,
 		Drive:       drive,
@@ -793,6 +901,7 @@ func main() {
 			"heartbeat timeouts are realised with HeartbeatTimeout=120ms and the real sweep ticker; behaviours that overran the margin are discarded",
 			"the control-connection cap is exercised with MaxControlConnections = 2 (Session_cap.cfg); the brute-force threshold is 3 failures (model constant MaxFail)",
 			"concurrent rounds racing a handshake with the removal of the same connection use ClientRegistry.CleanupStale(0, CloseConnection) for the sweep at a chosen instant",
+			"a kick is held between its locked section and its I/O by a one-shot hook in the old peer's fake transport (KickBegin/KickEnd); a cloud-control outage fails DisconnectClient(IfMatch)/EnsureClientOnline of the session layer's adapter",
 			"UnregisterForTunnel is driven through ClientRegistry.Unregister directly (what handleTunnelOpen calls), not through a full tunnel open",
 		},
 		TrustedBase: []string{"TLC", "spec/SessionTraceReg.tla as the reading of the C07 statement", "srvkit fake transport and name mapping"},
